@@ -413,6 +413,12 @@ func termCorpus(t *testing.T, out *sink, cases *int) {
 		{Name: "parents", Types: []ast.RelationType{{Namespace: "F"}}},
 		{Name: "view", SubjectSetRewrite: or(&ast.ComputedSubjectSet{Relation: "owner"}, &ast.TupleToSubjectSet{Relation: "parents", ComputedSubjectSetRelation: "view"})},
 		{Name: "strict", SubjectSetRewrite: and(&ast.TupleToSubjectSet{Relation: "parents", ComputedSubjectSetRelation: "view"}, &ast.TupleToSubjectSet{Relation: "parents", ComputedSubjectSetRelation: "strict"})},
+		// negations whose operand runs out of depth (answers "unknown") at every distance from the root
+		{Name: "blocked", Types: []ast.RelationType{{Namespace: "U"}}},
+		{Name: "open", SubjectSetRewrite: or(&ast.TupleToSubjectSet{Relation: "parents", ComputedSubjectSetRelation: "open"}, &ast.InvertResult{Child: &ast.ComputedSubjectSet{Relation: "blocked"}})},
+		{Name: "vis", SubjectSetRewrite: and(&ast.ComputedSubjectSet{Relation: "owner"}, &ast.InvertResult{Child: &ast.TupleToSubjectSet{Relation: "parents", ComputedSubjectSetRelation: "blocked"}})},
+		{Name: "nn", SubjectSetRewrite: or(&ast.InvertResult{Child: or(&ast.InvertResult{Child: &ast.ComputedSubjectSet{Relation: "view"}})})},
+		{Name: "ng", SubjectSetRewrite: or(&ast.InvertResult{Child: &ast.SubjectSetRewrite{Operation: ast.OperatorAnd, Children: ast.Children{&ast.ComputedSubjectSet{Relation: "view"}, &ast.ComputedSubjectSet{Relation: "owner"}}}})},
 	}}}
 	tuples := []string{"F:a#parents@F:b#", "F:b#parents@F:a#", "F:a#owner@alice",
 		"F:c#parents@F:d#", "F:d#parents@F:e#", "F:e#parents@F:c#", "F:e#parents@F:t#", "F:t#owner@bob",
@@ -451,6 +457,12 @@ func termCorpus(t *testing.T, out *sink, cases *int) {
 		for _, c := range checks {
 			q, _ := (&ketoapi.RelationTuple{}).FromString(c)
 			for _, rd := range []int{0, 3, 8, 1000000} { // a huge request depth is capped by the global limit
+				termOne(ee, out, q, rd, base, false, cases)
+			}
+		}
+		for _, c := range []string{"F:t#open@bob", "F:c#open@bob", "F:e#open@nobody", "F:t#vis@bob", "F:a#vis@alice", "F:t#nn@bob", "F:c#nn@bob", "F:t#ng@bob", "F:c#ng@nobody"} {
+			q, _ := (&ketoapi.RelationTuple{}).FromString(c)
+			for _, rd := range []int{1, 2, 3, 4, 5} {
 				termOne(ee, out, q, rd, base, false, cases)
 			}
 		}
